@@ -61,3 +61,48 @@ Theorem C18_include_absent : forall load_file k fid doc,
   process load_file (ISchema [(k, fid)] []) doc = Ok doc.
 Proof. exact include_absent. Qed.
 Print Assumptions C18_include_absent.
+
+(* ---- chains of include fields in one scope ---- *)
+Theorem C18_includes_app : forall load_file a b t,
+  do_includes load_file (a ++ b) t =
+    match do_includes load_file a t with
+    | Ok t1 => do_includes load_file b t1
+    | Err e => Err e
+    | Unmodelled => Unmodelled
+    end.
+Proof. exact includes_app. Qed.
+Print Assumptions C18_includes_app.
+
+Theorem C18_include_chain2 : forall load_file k1 f1 k2 f2 doc n1 c1 n2 c2,
+  tget k1 doc = Some (TLeaf n1) -> n1 <> PNone -> load_file f1 n1 = Ok c1 ->
+  tget k2 (combine doc c1) = Some (TLeaf n2) -> n2 <> PNone -> load_file f2 n2 = Ok c2 ->
+  process load_file (ISchema [(k1, f1); (k2, f2)] []) doc = Ok (combine (combine doc c1) c2).
+Proof. exact include_chain2. Qed.
+Print Assumptions C18_include_chain2.
+
+Theorem C18_include_chain2_later_wins : forall load_file k1 f1 k2 f2 doc n1 c1 n2 c2 k x,
+  tget k1 doc = Some (TLeaf n1) -> n1 <> PNone -> load_file f1 n1 = Ok c1 ->
+  tget k2 (combine doc c1) = Some (TLeaf n2) -> n2 <> PNone -> load_file f2 n2 = Ok c2 ->
+  NoDup (map fst c2) -> tget k c2 = Some (TLeaf x) ->
+  exists t, process load_file (ISchema [(k1, f1); (k2, f2)] []) doc = Ok t /\ tget k t = Some (TLeaf x).
+Proof. exact include_chain2_later_wins. Qed.
+Print Assumptions C18_include_chain2_later_wins.
+
+Theorem C18_include_chain2_earlier_kept : forall load_file k1 f1 k2 f2 doc n1 c1 n2 c2 k,
+  tget k1 doc = Some (TLeaf n1) -> n1 <> PNone -> load_file f1 n1 = Ok c1 ->
+  tget k2 (combine doc c1) = Some (TLeaf n2) -> n2 <> PNone -> load_file f2 n2 = Ok c2 ->
+  NoDup (map fst c1) -> NoDup (map fst c2) -> tget k c2 = None ->
+  exists t, process load_file (ISchema [(k1, f1); (k2, f2)] []) doc = Ok t /\
+            tget k t = match tget k c1 with
+                       | None => tget k doc
+                       | Some v => Some (merge_val (tget k doc) v)
+                       end.
+Proof. exact include_chain2_earlier_kept. Qed.
+Print Assumptions C18_include_chain2_earlier_kept.
+
+Theorem C18_include_chain_fails : forall load_file a k fid b doc t1 n e,
+  do_includes load_file a doc = Ok t1 ->
+  tget k t1 = Some (TLeaf n) -> n <> PNone -> load_file fid n = Err e ->
+  process load_file (ISchema (a ++ (k, fid) :: b) []) doc = Err e.
+Proof. exact include_chain_fails. Qed.
+Print Assumptions C18_include_chain_fails.
